@@ -243,6 +243,8 @@ def main(argv):
         c.broken.append("build of the repo working tree failed: " + blog[-800:])
         return c.finish(rule="build failed")
     c.proofs(extra_trusted=["independent strict WARC framing parser py_parse in checks/C17.py", "Python gzip/zlib as independent codecs"])
+    if c.tier == "thorough":
+        coqchk(c)
     drv, dlog = build_driver("C17")
     impl = hx_bin("hx_warc")
     rng = c.rng
